@@ -1190,7 +1190,8 @@ func (x *Exec) builtin(fr *Frame, st *State, b *ssa.Builtin, cc *ssa.CallCommon,
 		}
 		k(st, args[0])
 	case "recover":
-		k(st, &IfaceV{Tag: tb.Intc(0), Id: tb.Intc(0)})
+		// either nothing was panicking (nil) or the panic value, which is arbitrary: both are explored
+		k(st, x.symbolic(st, types.Universe.Lookup("any").Type(), "recovered", false, 0))
 	case "print", "println":
 		k(st, nil)
 	case "delete":
